@@ -268,7 +268,12 @@ EvDec ==
                       K.v = "done" /\ acc.zlib /\ ~BadGeometry(e) /\ d.cout + e.written = K.plen
                         /\ d.cin + e.consumed >= K.endbyte - 4 /\ e.consumed = e.in_len
                       => e.status # "HasMoreOutput")
-     IN /\ Report(fails, 18)
+               \* C16: the checksum the decoder exposes is the Adler-32 of all output produced so far
+               \o Iff("decoder_adler_is_adler_of_output_so_far",
+                      K.v = "done" /\ HasF(e, "adler") /\ e.flags % 2 = 1 /\ (e.flags \div 64) % 2 = 0
+                        /\ e.status \in {"Done", "NeedsMoreInput", "HasMoreOutput"}
+                      => e.adler = AdlerSeq(d.dig, e.data))
+     IN /\ Report(fails, 19)
         /\ ds' = [ds EXCEPT ![e.obj] = DecNext(d, e, AdlerSeq(d.dig, e.data))]
   /\ l' = l + 1
   /\ Keep(<<acc, cs, ip, cid, dc, ss, cc, seen>>)
@@ -520,6 +525,19 @@ EvCMemToHeap ==
   /\ l' = l + 1
   /\ Keep(<<acc, cs, ip, cid, dc, ds, ss, cc, seen>>)
 
+\* tinfl_decompress (out_buf_start / out_buf_next form) against the Rust decoder
+EvCTinfl ==
+  /\ Is("c_tinfl")
+  /\ LET e == E
+         fails ==
+              CIff("c_tinfl_same_status_as_rust", e.status = e.twin.status)
+           \o CIff("c_tinfl_same_counts_as_rust", e.consumed = e.twin.consumed /\ e.written = e.twin.written)
+           \o CIff("c_tinfl_same_bytes_as_rust", e.data = e.twin_data)
+           \o CIff("c_tinfl_counts_within_offered", e.consumed <= e.in_len /\ e.written <= e.budget)
+     IN Report(fails, 4)
+  /\ l' = l + 1
+  /\ Keep(<<acc, cs, ip, cid, dc, ds, ss, cc, seen>>)
+
 EvCBound ==
   /\ Is("c_bound")
   /\ LET e == E
@@ -579,7 +597,7 @@ Known == {"case", "input", "stream", "compressed", "roundtrip", "panic", "hang",
           "comp_new", "comp", "flushpoint", "defl", "defl_end",
           "dnew", "dec", "dec_end", "equiv", "state_same", "vec", "sliceiter", "inf_new", "inf", "inf_end", "equiv_s", "cksum",
           "c_init", "c_call", "c_reset", "c_end", "c_misuse", "c_compress", "c_compressed_valid",
-          "c_uncompress", "c_mem_to_mem", "c_mem_to_heap", "c_bound", "pair", "bb", "bb_end", "note", "gen_expect", "zhdr"}
+          "c_uncompress", "c_mem_to_mem", "c_mem_to_heap", "c_bound", "c_tinfl", "pair", "bb", "bb_end", "note", "gen_expect", "zhdr"}
 
 \* an event the spec has no action for is itself a failure (never silently skipped)
 EvUnknown ==
@@ -594,7 +612,7 @@ Next == \/ EvCase \/ EvInput \/ EvStream \/ AccRun \/ EvStreamDone
         \/ EvDNew \/ EvDec \/ EvDecEnd \/ EvStateSame \/ EvEquiv \/ EvVec \/ EvSliceIter
         \/ EvInfNew \/ EvInf \/ EvInfEnd \/ EvEquivS \/ EvCksum
         \/ EvCInit \/ EvCCall \/ EvCReset \/ EvCEnd \/ EvCMisuse \/ EvCCompress \/ EvCCompressedValid
-        \/ EvCUncompress \/ EvCMemToMem \/ EvCMemToHeap \/ EvCBound
+        \/ EvCUncompress \/ EvCMemToMem \/ EvCMemToHeap \/ EvCBound \/ EvCTinfl
         \/ EvPair \/ EvBB \/ EvBBEnd \/ EvNote \/ EvGenExpect \/ EvZHdr
         \/ EvUnknown
 
